@@ -149,9 +149,8 @@ impl GraphView {
                 .iter()
                 .filter_map(|a| if let NodeAnnotation::Send(s, r) = a { Some((*s as usize, *r as usize)) } else { None })
                 .collect();
-            if !sends.is_empty() && !matches!(op, Operation::NOP) {
-                return Err(format!("Send annotation on non-NOP node {} ({})", i, op));
-            }
+            // the compiler puts Send markers on NOP nodes only; generated graphs (C06) may carry them on any node:
+            // the value is computed locally and then transferred, exactly as for a NOP
             let ty = n.get_type().map_err(crate::dsl::es)?;
             nodes.push(NodeInfo { node: n.clone(), op, deps, users: vec![], ty, sends, annotations });
         }
